@@ -168,11 +168,15 @@ example : ExprSim_sqlite.F.bins = Prec_sqlite.F.bins ∧ ExprSim_sqlite.F.pres =
   decide
 example : ExprSim_mysql.F.bins = Prec_mysql.F.bins ∧ ExprSim_mysql.F.pres = Prec_mysql.F.pres := by
   decide
-/-- sqlite / mysql have a two-token operator (`NOT IN`), mindsdb has none -/
-example : (ExprSim_sqlite.F.bins.filter fun o => (ExprSim_sqlite.cert.opRest o).isSome).length = 1 ∧
-    (ExprSim_mysql.F.bins.filter fun o => (ExprSim_mysql.cert.opRest o).isSome).length = 1 ∧
-    (ExprSim_mindsdb.F.bins.filter fun o => (ExprSim_mindsdb.cert.opRest o).isSome).length = 0 := by
-  decide
+/-- the two-token operators of the certificate (`NOT IN` in sqlite / mysql, `IS NOT` in mindsdb — whatever rules
+`expr T1 T2 expr` the live grammar has) are exactly those the precedence translator found, with the same terminals -/
+def splitOf (C : Cert) (F : Fragment) : List (Nat × Nat × Nat) :=
+  F.bins.filterMap fun o => (C.opRest o).map fun t => (o, C.opTerm o, t)
+example : splitOf ExprSim_sqlite.cert ExprSim_sqlite.F = Prec_sqlite.splitOps ∧
+    splitOf ExprSim_mysql.cert ExprSim_mysql.F = Prec_mysql.splitOps ∧
+    splitOf ExprSim_mindsdb.cert ExprSim_mindsdb.F = Prec_mindsdb.splitOps := by decide
+/-- each dialect has at least one (so the two-token path of the simulation is exercised on real tables) -/
+example : Prec_sqlite.splitOps ≠ [] ∧ Prec_mysql.splitOps ≠ [] ∧ Prec_mindsdb.splitOps ≠ [] := by decide
 
 /-! ### non-vacuity -/
 
@@ -233,6 +237,14 @@ example : observe Tables_sqlite.tables ExprSim_sqlite.cert Prec_sqlite.P ExprSim
       ExprSim_sqlite.tokFROM (addParens Prec_sqlite.S ExprSim_sqlite.ex3) =
     expected Tables_sqlite.tables ExprSim_sqlite.cert Prec_sqlite.P ExprSim_sqlite.tokFROM
       ExprSim_sqlite.selectStart (addParens Prec_sqlite.S ExprSim_sqlite.ex3) := by decide +kernel
+
+/-- `a IS NOT b + c OR NOT d` with `IS`, `NOT` as two terminals (mindsdb: rule `expr IS NOT expr`, whose completed
+state also holds `NOT expr .` — the reduce/reduce conflict must go to the two-token rule) -/
+example : observe Tables_mindsdb.tables ExprSim_mindsdb.cert Prec_mindsdb.P ExprSim_mindsdb.F ExprSim_mindsdb.tokSELECT
+      ExprSim_mindsdb.tokFROM (addParens Prec_mindsdb.S ExprSim_mindsdb.ex4) =
+    expected Tables_mindsdb.tables ExprSim_mindsdb.cert Prec_mindsdb.P ExprSim_mindsdb.tokFROM
+      ExprSim_mindsdb.selectStart (addParens Prec_mindsdb.S ExprSim_mindsdb.ex4) := by decide +kernel
+example : inFragment ExprSim_mindsdb.F ExprSim_mindsdb.ex4 = true := by decide
 
 /-- the hypothesis `canon` is not vacuous and not redundant: without its parentheses `ex2` is not
 canonical and the driver does NOT build its tree -/
